@@ -47,9 +47,9 @@ CLAIMED = {
          "Structural necessary conditions: frame decoding and acknowledgement processing are in bounds for every frame; no reachable abort from the receive path and the decoders except tabled assertions; the muxer's receive loop is left only on the stopped state or a transport read error (decode errors filtered); no allocation sized by a peer-supplied length field above one datagram.",
          "As C10. Exempted with checked side conditions: fromInitiateBytes (every call site passes frame.toBytes() of a decoded frame), Reliable.send retransmission loops (bounded by framesToSend / len under r.l). 'Can still be stopped cleanly' is C16; unbounded queues over histories are not decided.",
          "DESIGN.md §3 C11"),
- "C18": ("range analysis of narrowing conversions on the linear-form engine (role query: 8/16-bit conversions of values that derive from len() by dataflow, incl. the byte(x>>8), byte(x) pair), facts taken at the conversion",
-         "Structural necessary condition of the 'rejected when encoding instead of truncated or mis-framed' clause: every length that is narrowed to its wire width is provably within that width at the conversion. (Layout agreement of sibling codecs and prefix/payload consumption are added as R2/R3 when implemented; until then they are not claimed.)",
-         "Round-trip equality for all values is a functional statement and is not decided. 32-bit prefixes are outside the 8/16-bit rule.",
+ "C18": ("range analysis of narrowing conversions on the linear-form engine (role query: 8/16-bit conversions of values that derive from len() by dataflow, incl. the byte(x>>8), byte(x) pair), facts taken at the conversion; wire-token sequence extraction over all success paths of each stream writer / reader pair (widths from the static types given to binary.Read/Write, array and literal writes, constant-length ReadFull views; variable segments; nested codecs; switch discriminants) with set comparison; path-sensitive allocation provenance of []byte fields stored by stream decoders",
+         "Structural necessary conditions: (R1) every length narrowed to its wire width is provably within that width at the conversion ('rejected when encoding instead of truncated'); (R2) for the 11 stream codec pairs (Certificate, IDChunk, Name, AgMessage, Intent, the grant-data types, WriteString/ReadString, proxy id) writer and reader agree on the sequence of fixed widths, variable segments and nested codecs for every path variant and discriminant value, and use only full reads; (R4) a decoder never lets a decoded []byte field keep storage from before the call.",
+         "Round-trip equality of values is a functional statement and is not decided: field-to-position attribution inside equal-width runs, value transformations (time to Unix seconds), and the buffer-built codecs (frame headers, exec / userauth / port-forward requests: their readers and writers use different styles; only R1 applies to them) are outside R2. 32-bit prefixes are outside the 8/16-bit rule.",
          "DESIGN.md §3 C18"),
  "C20": ("cursor/bounds analysis of glob.Glob (interval fixpoint over its loop variables), abort reachability, loop-progress analysis on the SSA loop (every path around a loop strictly advances a loop variable, none moves backwards), path analysis of the consumers (argument order, first true element in slice order, merge iff match, once per block)",
          "Structural necessary conditions of the totality clause (no out-of-range index for any pattern/input, no abort, no state-preserving path around a loop) and of the 'consequently' clause (the consumers ask Glob(pattern, input) and act on the first match / on each matching block once, in order). That Glob computes glob matching is a functional statement and is not decided (the pinned matcher's missing backtracking, F6, was found by reading and repaired, not detected by this check).",
